@@ -242,8 +242,18 @@ func waitFor(site string) {
 		Yield(site)
 		return
 	}
+	// No scheduler: a lock that is not free here is held by nobody who could release it while we
+	// spin on one thread of control (set-up, reference and recovery phases run alone). Give real
+	// goroutines a moment, then say so instead of hanging.
+	spins++
+	if spins > 200000 {
+		spins = 0
+		panic("zzsimhook: " + site + ": the lock is held and nobody is running who could release it (leaked lock)")
+	}
 	runtimeGosched()
 }
+
+var spins int
 
 type Mutex struct{ mu sync.Mutex }
 
@@ -297,5 +307,77 @@ func (o *Once) Do(f func()) {
 	if !o.done {
 		defer func() { o.done = true }()
 		f()
+	}
+}
+
+// ---- deterministic object pool ----
+
+// Pool stands in for sync.Pool in instrumented library packages. The real
+// pool keeps per-P caches that the garbage collector empties: whether a Get
+// re-uses an object depends on goroutine placement and GC timing, so a run
+// that went wrong through pool misuse (an object released twice, used after
+// release) would not replay. This one is a plain LIFO stack: a Get after a Put
+// always re-uses. A real mutex guards it (never held across a yield), which
+// also gives the race detector the Put-before-Get edge the real pool provides.
+// ResetPools empties every pool; the simulator calls it when a run starts, so
+// that a run does not depend on the runs its process executed before.
+type Pool struct {
+	New func() any
+
+	mu    sync.Mutex
+	items []any
+	known bool
+}
+
+var (
+	poolsMu sync.Mutex
+	pools   []*Pool
+)
+
+func (p *Pool) register() {
+	if !p.known {
+		p.known = true
+		poolsMu.Lock()
+		pools = append(pools, p)
+		poolsMu.Unlock()
+	}
+}
+
+func (p *Pool) Get() any {
+	p.mu.Lock()
+	p.register()
+	if n := len(p.items); n > 0 {
+		x := p.items[n-1]
+		p.items[n-1] = nil
+		p.items = p.items[:n-1]
+		p.mu.Unlock()
+		return x
+	}
+	p.mu.Unlock()
+	if p.New != nil {
+		return p.New()
+	}
+	return nil
+}
+
+func (p *Pool) Put(x any) {
+	if x == nil {
+		return
+	}
+	p.mu.Lock()
+	p.register()
+	p.items = append(p.items, x)
+	p.mu.Unlock()
+}
+
+// ResetPools empties every Pool that was ever used.
+func ResetPools() {
+	poolsMu.Lock()
+	ps := append([]*Pool(nil), pools...)
+	poolsMu.Unlock()
+	for _, p := range ps {
+		p.mu.Lock()
+		p.items = nil
+		p.mu.Unlock()
 	}
 }
